@@ -278,7 +278,7 @@ def explore (sp : Spec) (allow : Cfg → Label → Bool) : Nat → Cfg → List 
     else succs.foldl (fun a c' => explore sp allow n c' a) acc
 
 inductive Stop where
-  | live | before | inqueueGoaway | inqueueCancel | answering | fullGoaway
+  | live | before | inqueueGoaway | inqueueCancel | answering | fullGoaway | fullComplete
   deriving Repr, DecidableEq
 
 def Stop.ofString : String → Option Stop
@@ -288,6 +288,7 @@ def Stop.ofString : String → Option Stop
   | "inqueue-cancel" => some .inqueueCancel
   | "answering" => some .answering
   | "full-goaway" => some .fullGoaway
+  | "full-complete" => some .fullComplete
   | _ => none
 
 def headIsSignal (c : Cfg) : Bool :=
@@ -308,6 +309,8 @@ def stopAllow (s : Stop) (c : Cfg) (l : Label) : Bool :=
   | .inqueueCancel, .exit | .inqueueCancel, .dequeueMine | .inqueueCancel, .dequeueOther => started
   -- queue full, a TorGoAway at its head: the loop frees one slot (drain) and exits
   | .fullGoaway, .exit | .fullGoaway, .drain => true
+  -- queue full, pieces completing, callers parked: the loop keeps running and works it off
+  | .fullComplete, .drain | .fullComplete, .dequeueOther | .fullComplete, .dequeueMine => true
   | _, _ => false
 
 def stopInit (sp : Spec) (s : Stop) (ctx : Bool) : Cfg :=
@@ -316,6 +319,7 @@ def stopInit (sp : Spec) (s : Stop) (ctx : Bool) : Cfg :=
   | .inqueueGoaway => init sp ctx true 1
   | .answering => init sp ctx true 1
   | .fullGoaway => init sp ctx false 511
+  | .fullComplete => init sp ctx false 5
   | _ => init sp ctx true 0
 
 def outcomes (sp : Spec) (s : Stop) (ctx : Bool) : List Term :=
@@ -469,7 +473,7 @@ def cstopAllow (s : Stop) (c : CC) : CLabel → Bool
   | .take => s != .inqueueGoaway && s != .fullGoaway
   | .exit =>
     match s with
-    | .live | .answering => c.conn == .owned || c.conn == .closed || c.conn == .dropped
+    | .live | .answering | .fullComplete => c.conn == .owned || c.conn == .closed || c.conn == .dropped
     | .before => false
     | _ => c.conn != .caller
 
